@@ -29,6 +29,8 @@ type c01Req struct {
 	cfg      *Config
 }
 
+var c01NIssuers = 1 // issuers configured in the scenario being transcribed
+
 type c01Ev struct {
 	seq float64
 	txt string
@@ -55,20 +57,41 @@ func c01Events(r *c01Req, ops []vOp, calls []vIssueCall, foreignWrites []int64) 
 	}
 	emit := func(seq float64, f string, a ...any) { evs = append(evs, c01Ev{seq, fmt.Sprintf(f, a...)}) }
 	i, ci := 0, 0
+	// one check of "is the bundle there" over the configured issuers: per issuer a chain of up to
+	// three operations that stops at its first failure; an Exists check stops at the first issuer
+	// that has everything, a load looks at every issuer (and takes the newest). allGood = some
+	// issuer's chain was complete; n = 3 then (what the callers test), else the operations seen.
 	group := func(kind string) (last int64, n int, allGood bool, firstSeq int64) {
-		allGood = true
-		for i < len(ops) && ops[i].Kind == kind && n < 3 { // a bundle is three keys
-			if n == 0 {
-				firstSeq = ops[i].Seq
+		seen := 0
+		for iss := 0; iss < c01NIssuers; iss++ {
+			k, chainGood := 0, true
+			for i < len(ops) && ops[i].Kind == kind && k < 3 { // a bundle is three keys
+				if seen == 0 {
+					firstSeq = ops[i].Seq
+				}
+				last = ops[i].Seq
+				k++
+				seen++
+				good := ops[i].Out == "ok" || ops[i].Out == "true"
+				i++
+				if !good {
+					chainGood = false
+					break // both Exists-chains and Load-chains stop at the first failure
+				}
 			}
-			last = ops[i].Seq
-			n++
-			good := ops[i].Out == "ok" || ops[i].Out == "true"
-			i++
-			if !good {
-				allGood = false
-				break // both Exists-chains and Load-chains stop at the first failure
+			if k == 0 {
+				break
 			}
+			if chainGood && k == 3 {
+				allGood = true
+				if kind == "Exists" {
+					break
+				}
+			}
+		}
+		n = seen
+		if allGood {
+			n = 3
 		}
 		return
 	}
@@ -153,7 +176,14 @@ func c01Events(r *c01Req, ops []vOp, calls []vIssueCall, foreignWrites []int64) 
 		if ci < len(calls) && calls[ci].Begin < nextOpSeq {
 			c := calls[ci]
 			ci++
-			emit(float64(c.Begin), "issueBegin:%d", r.id)
+			first := c.Begin
+			// (the issuers are tried one after the other inside one attempt: a refusal by one followed at
+			// once by the next one's answer is one issuance for the LTS, with the last outcome)
+			for c.Err != "" && ci < len(calls) && calls[ci].Begin < nextOpSeq && calls[ci].IssuerID != c.IssuerID {
+				c = calls[ci]
+				ci++
+			}
+			emit(float64(first), "issueBegin:%d", r.id)
 			ok := 0
 			if c.Err == "" {
 				ok = 1
@@ -255,6 +285,9 @@ func c01Scenario(t *testing.T, o *vOut, seed int64, maxN, scIdx int) {
 		lockFaultAt = 1 + rng.Intn(3)
 	}
 	useFiles := rng.Intn(4) == 0
+	// a second, FIRST-listed issuer that issued the initial certificate and is down now: every
+	// issuance is answered by the fall-back issuer, whose bundle lies next to the old one
+	twoIss := rng.Intn(5) == 0
 	// leader failure by cancellation: the context of one request ends while it is inside the
 	// issuer (its release must still happen, and the others must take over)
 	cancelReq := 0
@@ -287,18 +320,36 @@ func c01Scenario(t *testing.T, o *vOut, seed int64, maxN, scIdx int) {
 		}
 		ca := vNewCA("c01")
 		iss := vNewIssuer("ca-one", ca)
+		issuers := []Issuer{iss}
+		var issDown *vIssuer
+		if twoIss {
+			issDown = vNewIssuer("ca-zero", ca)
+			issuers = []Issuer{issDown, iss}
+		}
+		c01NIssuers = len(issuers)
 		canon := canonicalSubjectForVerif(fam[0])
 		// preparation
 		if initial != "none" {
-			_, cfg0 := vNewCfg(st, []Issuer{iss})
+			prep := iss
+			if twoIss {
+				prep = issDown
+			}
+			_, cfg0 := vNewCfg(st, []Issuer{prep})
 			if initial == "due" {
-				iss.Lifetime, iss.Backdate = 10*time.Minute, 100*time.Minute
+				prep.Lifetime, prep.Backdate = 10*time.Minute, 100*time.Minute
 			}
 			if err := cfg0.ObtainCertSync(context.Background(), fam[0]); err != nil {
 				t.Fatalf("preparation: %v", err)
 			}
-			iss.Lifetime, iss.Backdate = 90*24*time.Hour, 0
+			prep.Lifetime, prep.Backdate = 90*24*time.Hour, 0
 			cfg0.certCache.Stop()
+		}
+		if twoIss {
+			issDown.Behave = func(int, []string) error { return fmt.Errorf("verif: first issuer down") }
+		}
+		baseDown := 0
+		if twoIss {
+			baseDown = len(issDown.Calls())
 		}
 		baseOps := len(getOps())
 		baseCalls := len(iss.Calls())
@@ -318,7 +369,7 @@ func c01Scenario(t *testing.T, o *vOut, seed int64, maxN, scIdx int) {
 			if !sameSpelling {
 				r.spelling = fam[rng.Intn(len(fam))]
 			}
-			r.cache, r.cfg = vNewCfg(st, []Issuer{iss})
+			r.cache, r.cfg = vNewCfg(st, issuers)
 			// an on-demand handshake: loads from storage, obtains (with retries, inside the lock) when
 			// nothing is there — the same load / pre-check / lock / re-check / issue / save as a manage
 			// request. (A due certificate would be renewed in the background after the handshake has
@@ -330,7 +381,7 @@ func c01Scenario(t *testing.T, o *vOut, seed int64, maxN, scIdx int) {
 				r.kind, r.async, r.od = "manage", true, true
 				r.spelling = []string{canon, strings.ToUpper(canon), canon}[rng.Intn(3)]
 				r.cache.Stop()
-				r.cache, r.cfg = vNewCfg(st, []Issuer{iss}, func(c *Config, _ *CacheOptions) {
+				r.cache, r.cfg = vNewCfg(st, issuers, func(c *Config, _ *CacheOptions) {
 					c.OnDemand = &OnDemandConfig{DecisionFunc: func(context.Context, string) error { return nil }}
 				})
 			}
@@ -444,6 +495,10 @@ func c01Scenario(t *testing.T, o *vOut, seed int64, maxN, scIdx int) {
 		setHooks(nil, nil)
 		ops := getOps()[baseOps:]
 		calls := iss.Calls()[baseCalls:]
+		if twoIss {
+			calls = append(calls, issDown.Calls()[baseDown:]...)
+			sort.SliceStable(calls, func(i, j int) bool { return calls[i].Begin < calls[j].Begin })
+		}
 		var all []c01Ev
 		problem := ""
 		contacted := map[int]bool{}
@@ -529,7 +584,7 @@ func c01Scenario(t *testing.T, o *vOut, seed int64, maxN, scIdx int) {
 				saves++
 			}
 		}
-		_, cfgX := vNewCfg(st, []Issuer{iss})
+		_, cfgX := vNewCfg(st, issuers)
 		res, lerr := cfgX.loadCertResourceAnyIssuer(context.Background(), canon)
 		cfgX.certCache.Stop()
 		if lerr == nil {
@@ -558,6 +613,9 @@ func c01Scenario(t *testing.T, o *vOut, seed int64, maxN, scIdx int) {
 		}
 		o.Stat("issuer_calls", len(calls))
 		o.Stat("init_"+initial, 1)
+		if twoIss {
+			o.Stat("fallback_issuer_histories", 1)
+		}
 		if useFiles {
 			o.Stat("backend_filestorage", 1)
 		} else {
@@ -637,7 +695,8 @@ func c01Scenario(t *testing.T, o *vOut, seed int64, maxN, scIdx int) {
 			}
 			if (op.Kind == "Store" || op.Kind == "Exists" || op.Kind == "Load") && !strings.Contains(op.Key, "/wildcard_."+canon[strings.Index(canon, ".")+1:]) {
 				if i := strings.LastIndex(op.Key, "/"); i > 0 {
-					keyDirs[op.Key[:i]] = true
+					d := op.Key[:i] // certificates/<issuer>/<site>: the site folder is what spellings must agree on
+					keyDirs[d[strings.LastIndex(d, "/")+1:]] = true
 				}
 			}
 		}
